@@ -272,6 +272,9 @@ class BoundedDict(DictMixin):
         return data
 
     def __delitem__(self, key):
+        if key not in self._data:
+            # Do not report the deletion of an element we do not hold
+            raise KeyError(key)
         if self._delete_cb is not None:
             self._delete_cb(key)
         del self._data[key]
